@@ -16,6 +16,7 @@ Inductive out :=
 | OTime (t : N)
 | OUnit                       (* cancel *)
 | OPeek (t : option N)        (* peek_time *)
+| OInv (bits : list N)        (* representation-invariant bits (verif hook) *)
 | OPanic (site : N)           (* 1 = add in the past, 2 = fetch on empty *)
 | OOutOfFuel.
 
@@ -158,10 +159,35 @@ Definition peek_time (q : cq) : out :=
           end
   end.
 
+(* ---- representation invariant, executable (L2 check) ----
+   The harness evaluates the same five predicates on CQueue::verif_snapshot();
+   CQueue/InvBits.v proves that every reachable model state yields all ones. *)
+Fixpoint sortedb (l : list ev) : bool :=
+  match l with
+  | [] => true
+  | x :: r => match r with
+              | [] => true
+              | y :: _ => ((etime x <? etime y) || ((etime x =? etime y) && (eid x <? eid y))) && sortedb r
+              end
+  end.
+
+Fixpoint indexb (n t : N) (i : N) (bs : list (list ev)) : bool :=
+  match bs with
+  | [] => true
+  | b :: r => forallb (fun e => idx n t (etime e) =? i) b && indexb n t (i + 1) r
+  end.
+
+Definition inv_bits (q : cq) : list N :=
+  [ b2n (forallb sortedb (buckets q));
+    b2n (indexb (qn q) (qt q) 0 (buckets q) && (N.of_nat (length (buckets q)) =? qn q));
+    b2n (forallb (fun e => etime e =? tcur q) (zero q) && forallb (forallb (fun e => tcur q <=? etime e)) (buckets q));
+    b2n (qlen q =? N.of_nat (length (zero q) + length (concat (buckets q))));
+    b2n ((t1 q =? t0 q + qt q) && (t0 q mod qt q =? 0) && (head q =? (t0 q / qt q) mod qn q)) ].
+
 (* ---- histories ---- *)
 (* [Cancel k] cancels the handle returned by the k-th successful add (k taken
    modulo the number of handles so far; no-op when there is none). *)
-Inductive op := Add (time pay : N) | Cancel (k : N) | Fetch | Len | Time | Peek.
+Inductive op := Add (time pay : N) | Cancel (k : N) | Fetch | Len | Time | Peek | Check.
 
 Record st := { sq : cq; handles : list (N * N) }.
 
@@ -183,6 +209,7 @@ Definition step (fixed : bool) (s : st) (o : op) : st * out :=
   | Len => (s, OLen (qlen (sq s)))
   | Time => (s, OTime (tcur (sq s)))
   | Peek => (s, peek_time (sq s))
+  | Check => (s, OInv (inv_bits (sq s)))
   end.
 
 Fixpoint run_from (fixed : bool) (s : st) (ops : list op) : st * list out :=
@@ -201,7 +228,7 @@ Definition run_ops_at (fixed : bool) (n t ts : N) (ops : list op) : list out :=
   snd (run_from fixed (init_at n t ts) ops).
 
 (* ---- wire format ---- *)
-(* script: n t ts u op*   with op = 1 time pay | 2 k | 3 | 4 | 5 | 6;
+(* script: n t ts u op*   with op = 1 time pay | 2 k | 3 | 4 | 5 | 6 | 7;
    ts = 0 uses CQueue::new, ts > 0 uses CQueue::new_at.  Every time in the script
    (ts and the time of an add) is given in units of u nanoseconds (u = 0 means 1),
    and printed times are divided by u again: this lets scripts reach timestamps
@@ -214,6 +241,7 @@ Definition dec_op (l : list N) : option (op * list N) :=
   | 4 :: r => Some (Len, r)
   | 5 :: r => Some (Time, r)
   | 6 :: r => Some (Peek, r)
+  | 7 :: r => Some (Check, r)
   | _ => None
   end.
 
@@ -237,6 +265,7 @@ Definition enc_out (o : out) : list N :=
   | OUnit => [5]
   | OPeek None => [6; 0]
   | OPeek (Some t) => [6; 1; t]
+  | OInv bits => 7 :: bits
   | OPanic s => [9; s]
   | OOutOfFuel => [8]
   end.
